@@ -336,7 +336,9 @@ def run():
     # the binding binds: a recorded interruption whose follow-up run "resumed" although no checkpoint was published, and one
     # whose operation log lost an entry, must be rejected
     import copy
-    probe = next((tr for tr in traces if tr['post']['final'] < 0 and tr['follow']['decision'] == 'recompute' and len(tr['ev']) > 3), None)
+    # (a probe is an execution that itself conforms - under a broken library another one is taken, or the self-test is skipped)
+    probe = next((tr for tr, v in zip(traces, verd) if tr['post']['final'] < 0 and tr['follow']['decision'] == 'recompute' and len(tr['ev']) > 3
+                  and v['c08'] and v['fs_eq'] and v['matched'] == v['total']), None)
     if probe is not None:
         c1 = copy.deepcopy(probe)
         c1['follow']['decision'] = 'resume'
